@@ -155,6 +155,21 @@ def run_property(prop):
         n += ng
         if gf:
             fails.append(gf)
+    # regression grid (tools/gridgen.py): a fixed generated family of scenarios per property, stored with the behaviour recorded on the
+    # tree on which the contracts were proved; a difference in an observable the statements fix is reported with the scenario
+    try:
+        import gridgen
+        if prop in gridgen.FOCI:
+            ng, gfails = gridgen.check(prop)
+            n += ng
+            os.makedirs(os.path.join(VERIF, "out", "replay"), exist_ok=True)
+            for k, (i, scen, bad, obs) in enumerate(gfails[:3]):
+                p = os.path.join(VERIF, "out", "replay", f"{prop}-grid-{k}.scn")
+                with open(p, "w", newline="") as f:
+                    f.write(scen)
+                fails.append((p, [f"regression grid {prop}, case {i} ({len(gfails)} of {ng} cases differ): {b}" for b in bad], obs))
+    except ImportError:
+        pass
     if prop == "C16":
         # generated .dig documents (tools/dig_cases.py): the XML walk of dig::File::parse is out of reach of a contract
         import dig_cases
